@@ -10,11 +10,12 @@
 
    A stage is split into its two combinational paths and its register update
      fwd  : state -> ctl -> beat_in  -> beat_out          (valid/payload/eop/meta towards the consumer)
-     bwd  : state -> ctl -> ready_out -> ready_in          (ready towards the producer)
+     bwd  : state -> ctl -> beat_in -> ready_out -> ready_in   (ready towards the producer)
      next : state -> ctl -> beat_in -> ready_out -> state  (what the rising clock edge latches)
-   For every stage of utils.h modelled here the forward path does not read ready and the backward
-   path does not read valid (otherwise gatery would report a combinational loop when two such stages
-   are chained), which is what makes [compose] a plain wiring of the two paths within one cycle.
+   For every stage modelled here the forward path does not read ready (otherwise gatery would report
+   a combinational loop when two such stages are chained), which is what makes [compose] a plain
+   wiring of the two paths within one cycle.  The backward path of the utils.h stages does not read
+   the incoming beat either; the Packet.h width converters do (ready(in) depends on eop(in)).
    [ctl] carries the external control inputs of the cycle: stall condition number k is [nth k ctl false].
 
    Transcription notes (line numbers of utils.h at the time of writing):
@@ -40,6 +41,19 @@
      valid(out) = valid(in); ready(in) = ready(out) & isLast; payload = source.part(r, counter);
      eop(out) = eop(in) & isLast; meta passes.
    The optional `reset` argument of extendWidth/reduceWidth is tied to its default '0'.
+   * Packet.h widthExtend ratio r (630-657), stream without Empty/EmptyBits/Sop/ByteEnable:
+     Counter(r) incremented on transfer(source), reset on transfer(source) & eop(source);
+     valid(out) = valid(in) & (isLast | eop(in)); ready(in) = (isLast | eop(in)) ? ready(out) : '1';
+     payload: ret = reg(ret) with part[counter] := in, i.e. a register of r slots that is rewritten
+     EVERY cycle with the value shown at the output; the slots above a short last beat keep what
+     they held before (stale, initially undefined = digit [XD]); eop and TxId pass.
+   * Packet.h widthReduce ratio r (760-794), same stream type: Counter(r) incremented on
+     transfer(out), reset on transfer(out) & transfer(source) (NOT on an idle producer);
+     sentBits register (here in units of narrow beats: q) = (transfer(source) ? 0 : q) + 1, enabled
+     by transfer(out), reset value 1; eop(out) = eop(in) & (q >= r) (no EmptyBits: fullBits = width);
+     ready(in) = (isLast | eop(out)) ? ready(out) : '0'; payload = source.part(r, counter).
+   * Packet.h matchWidth (796-806) chooses widthExtend / widthReduce / the wire by comparing widths
+     at elaboration time: [matchD].
    strm::fifo is NOT modelled here (its machine is C15's FifoDefs.v); the check treats chains with a
    FIFO stage through the independent list oracle only. *)
 From Coq Require Import List NArith Bool Arith.
@@ -53,32 +67,32 @@ Record stage := mkStage {
   st : Type;
   init : st;
   fwd : st -> list bool -> beat -> beat;
-  bwd : st -> list bool -> bool -> bool;
+  bwd : st -> list bool -> beat -> bool -> bool;
   next : st -> list bool -> beat -> bool -> st }.
 
 (* ---------------------------------------------------------------- wire (delay 0) *)
 Definition idS : stage :=
-  mkStage unit tt (fun _ _ b => b) (fun _ _ r => r) (fun _ _ _ _ => tt).
+  mkStage unit tt (fun _ _ b => b) (fun _ _ _ r => r) (fun _ _ _ _ => tt).
 
 (* ---------------------------------------------------------------- regDownstreamBlocking *)
 Definition blockS : stage :=
   mkStage beat beat0
     (fun s _ _ => s)
-    (fun _ _ r => r)
+    (fun _ _ _ r => r)
     (fun s _ b r => if r then b else s).
 
 (* ---------------------------------------------------------------- regDownstream *)
 Definition regDownS : stage :=
   mkStage beat beat0
     (fun s _ _ => s)
-    (fun s _ r => r || negb (bvalid s))
+    (fun s _ _ r => r || negb (bvalid s))
     (fun s _ b r => if r || negb (bvalid s) then b else s).
 
 (* ---------------------------------------------------------------- regReady (skid buffer) *)
 Definition readyS : stage :=
   mkStage (bool * beat)%type (false, beat0)
     (fun s _ b => if fst s then mkBeat true (bdata (snd s)) (beop (snd s)) (bmeta (snd s)) else b)
-    (fun s _ _ => negb (fst s))
+    (fun s _ _ _ => negb (fst s))
     (fun s _ b r =>
        ((if r then false else if fst s then true else bvalid b),
         (if r || negb (fst s) then b else snd s))).
@@ -87,7 +101,7 @@ Definition readyS : stage :=
 Definition stallS (k : nat) : stage :=
   mkStage unit tt
     (fun _ ctl b => if nth k ctl false then mkBeat false (bdata b) (beop b) (bmeta b) else b)
-    (fun _ ctl r => r && negb (nth k ctl false))
+    (fun _ ctl _ r => r && negb (nth k ctl false))
     (fun _ _ _ _ => tt).
 
 (* ---------------------------------------------------------------- scl::Counter(r) as used here *)
@@ -98,7 +112,7 @@ Definition cntInc (r c : nat) : nat := if isLast r c then 0 else S c.
 Definition extendS (r : nat) : stage :=
   mkStage (nat * list (list N))%type (0, repeat [] r)
     (fun s _ b => mkBeat (isLast r (fst s) && bvalid b) (concat (tl (snd s) ++ [bdata b])) (beop b) (bmeta b))
-    (fun s _ rdy => rdy || negb (isLast r (fst s)))
+    (fun s _ _ rdy => rdy || negb (isLast r (fst s)))
     (fun s _ b rdy =>
        if bvalid b && (rdy || negb (isLast r (fst s)))
        then (cntInc r (fst s), tl (snd s) ++ [bdata b])
@@ -111,17 +125,50 @@ Definition chunk (q i : nat) (d : list N) : list N := firstn q (skipn (i * q) d)
 Definition reduceS (r : nat) : stage :=
   mkStage nat 0
     (fun c _ b => mkBeat (bvalid b) (chunk (length (bdata b) / r) c (bdata b)) (beop b && isLast r c) (bmeta b))
-    (fun c _ rdy => rdy && isLast r c)
+    (fun c _ _ rdy => rdy && isLast r c)
     (fun c _ b rdy => if negb (bvalid b) then 0 else if rdy then cntInc r c else c).
+
+(* ---------------------------------------------------------------- Packet.h widthExtend *)
+(* digit standing for "undefined" (register without reset value never written): no real digit of the
+   correspondence run is that large; the driver prints it as X *)
+Definition XD : N := 4294967295%N.
+
+Fixpoint set_nth {A} (n : nat) (l : list A) (x : A) : list A :=
+  match l with
+  | [] => []
+  | y :: l' => match n with O => x :: l' | S n' => y :: set_nth n' l' x end
+  end.
+
+(* m = number of digits of one input beat (only used for the undefined initial register contents) *)
+Definition pextendS (m r : nat) : stage :=
+  mkStage (nat * list (list N))%type (0, repeat (repeat XD m) r)
+    (fun s _ b => mkBeat (bvalid b && (isLast r (fst s) || beop b)) (concat (set_nth (fst s) (snd s) (bdata b))) (beop b) (bmeta b))
+    (fun s _ b rdy => if isLast r (fst s) || beop b then rdy else true)
+    (fun s _ b rdy =>
+       ((if bvalid b && (if isLast r (fst s) || beop b then rdy else true)
+         then (if beop b then 0 else cntInc r (fst s)) else fst s),
+        set_nth (fst s) (snd s) (bdata b))).
+
+(* ---------------------------------------------------------------- Packet.h widthReduce *)
+(* state: (counter, q) with q = sentBits / bitsPerBeatOut *)
+Definition preduceS (r : nat) : stage :=
+  mkStage (nat * nat)%type (0, 1)
+    (fun s _ b => mkBeat (bvalid b) (chunk (length (bdata b) / r) (fst s) (bdata b)) (beop b && Nat.leb r (snd s)) (bmeta b))
+    (fun s _ b rdy => if isLast r (fst s) || (beop b && Nat.leb r (snd s)) then rdy else false)
+    (fun s _ b rdy =>
+       let tout := bvalid b && rdy in
+       let tin := bvalid b && (if isLast r (fst s) || (beop b && Nat.leb r (snd s)) then rdy else false) in
+       ((if tout then (if tin then 0 else cntInc r (fst s)) else fst s),
+        (if tout then S (if tin then 0 else snd s) else snd s))).
 
 (* ---------------------------------------------------------------- sequential composition *)
 (* valid/payload forward and ready backward are wired combinationally within the cycle *)
 Definition compose (A B : stage) : stage :=
   mkStage (st A * st B)%type (init A, init B)
     (fun s ctl b => fwd B (snd s) ctl (fwd A (fst s) ctl b))
-    (fun s ctl r => bwd A (fst s) ctl (bwd B (snd s) ctl r))
+    (fun s ctl b r => bwd A (fst s) ctl b (bwd B (snd s) ctl (fwd A (fst s) ctl b) r))
     (fun s ctl b r =>
-       (next A (fst s) ctl b (bwd B (snd s) ctl r),
+       (next A (fst s) ctl b (bwd B (snd s) ctl (fwd A (fst s) ctl b) r),
         next B (snd s) ctl (fwd A (fst s) ctl b) r)).
 
 (* ---------------------------------------------------------------- derived stages *)
@@ -137,14 +184,20 @@ Definition delayS (n : nat) : stage :=
 Inductive sdesc :=
 | DRegDown | DRegBlock | DRegReady | DRegDecouple
 | DDelay (n : nat) | DStall (k : nat) | DExtend (r : nat) | DReduce (r : nat)
+| DPExtend (m r : nat) | DPReduce (r : nat)
 | DComp (a b : sdesc).
 
 Fixpoint denote (d : sdesc) : stage :=
   match d with
   | DRegDown => regDownS | DRegBlock => blockS | DRegReady => readyS | DRegDecouple => decoupleS
   | DDelay n => delayS n | DStall k => stallS k | DExtend r => extendS r | DReduce r => reduceS r
+  | DPExtend m r => pextendS m r | DPReduce r => preduceS r
   | DComp a b => compose (denote a) (denote b)
   end.
+
+(* Packet.h matchWidth from m digits to t digits: the three-way choice made at elaboration time *)
+Definition matchD (m t : nat) : sdesc :=
+  if Nat.ltb m t then DPExtend m (t / m) else if Nat.ltb t m then DPReduce (m / t) else DDelay 0.
 
 Fixpoint chainOf (l : list sdesc) : sdesc :=
   match l with
@@ -160,7 +213,7 @@ Record cyc := mkCyc { c_ctl : list bool; c_in : beat; c_rdy : bool }.
 Record ev := mkEv { e_ctl : list bool; e_in : beat; e_rin : bool; e_out : beat; e_rout : bool }.
 
 Definition evAt (S : stage) (s : st S) (c : cyc) : ev :=
-  mkEv (c_ctl c) (c_in c) (bwd S s (c_ctl c) (c_rdy c)) (fwd S s (c_ctl c) (c_in c)) (c_rdy c).
+  mkEv (c_ctl c) (c_in c) (bwd S s (c_ctl c) (c_in c) (c_rdy c)) (fwd S s (c_ctl c) (c_in c)) (c_rdy c).
 
 Definition stepS (S : stage) (s : st S) (c : cyc) : st S := next S s (c_ctl c) (c_in c) (c_rdy c).
 
